@@ -2,6 +2,7 @@ package ops
 
 import (
 	"context"
+	"errors"
 
 	"gorm.io/gorm"
 	"gorm.io/gorm/clause"
@@ -355,6 +356,32 @@ func Catalogue() []Op {
 				}
 				return tx.Transaction(func(tx2 *gorm.DB) error { return tx2.Create(&fam.Pet{Name: "petN"}).Error })
 			})
+		}})
+	// a nested block whose handle's context is cancelled while the block runs and which then fails: the
+	// ROLLBACK TO of the block belongs to the operation (it carries its context or does not run at all)
+	add(Op{Name: "tx_nested_cancel_inside", Kind: "assoc", Main: "memos",
+		Run: func(db *gorm.DB) error {
+			tx := db.Begin()
+			if tx.Error != nil {
+				return tx.Error
+			}
+			ctx2, cancel := context.WithCancel(db.Statement.Context)
+			defer cancel()
+			errBlock := errors.New("the block fails after its context was cancelled")
+			var cerr error
+			terr := tx.WithContext(ctx2).Transaction(func(tx2 *gorm.DB) error {
+				cerr = tx2.Create(&fam.Memo{Name: "mD"}).Error
+				cancel()
+				return errBlock
+			})
+			if cerr != nil || terr != errBlock { // an injected failure is the operation's result
+				tx.Rollback()
+				if cerr != nil {
+					return cerr
+				}
+				return terr
+			}
+			return tx.Rollback().Error
 		}})
 	return ops
 }
